@@ -198,7 +198,7 @@ Definition dash_after (ph : Q) (ds : list Q) : list Q :=
 Lemma normal_norm_phase : forall ph ds, normal ph -> normal (norm_phase ph ds).
 Proof.
   intros ph ds H. unfold norm_phase. destruct (Qle_bool 0 ph); [exact H|].
-  destruct (Qle_bool (qsum ds) 0); [exact H|apply normal_Qred].
+  destruct (Qle_bool (qsum ds) 0); [reflexivity|apply normal_Qred].
 Qed.
 Lemma dashes_char : forall ph ds w, Norm w -> normal ph -> Forall normal ds ->
   snd (set_dashes ph ds w) = mkPdfw (wfill w) (wstroke w) (walpha w) (wlw w) (wcap w) (wjoin w) (wml w) (dash_after ph ds).
